@@ -749,6 +749,44 @@ static void count_tag(Ctx &ctx, const char *what, uint64_t n) { // exact total =
         if ((n >> k) & 1) ctx.tag(fmt("%s:2^%02d", what, k));
 }
 
+// ---- the inline-assembly variant with compile-time constant operands, as gcc compiles it (c16_asm_consts.c) ----
+extern "C" {
+struct c16k_row {
+    uint64_t a, b;
+    uint64_t add_sat, mul_sat, add_val, mul_val;
+    int add_rc, mul_rc;
+};
+size_t c16k_table64(struct c16k_row *out);
+size_t c16k_table32(struct c16k_row *out);
+}
+static void check_constant_operand_tables() {
+    static struct c16k_row rows[128];
+    for (int width = 64; width >= 32; width -= 32) {
+        size_t n = width == 64 ? c16k_table64(rows) : c16k_table32(rows);
+        PBT_CHECK(n == 81, "constant-operand table has %zu rows", n);
+        const unsigned __int128 MAX = width == 64 ? (unsigned __int128)UINT64_MAX : (unsigned __int128)UINT32_MAX;
+        for (size_t i = 0; i < n; i++) {
+            const c16k_row &r = rows[i];
+            unsigned __int128 sum = (unsigned __int128)r.a + r.b, prod = (unsigned __int128)r.a * r.b;
+            uint64_t ws = sum > MAX ? (uint64_t)MAX : (uint64_t)sum, wp = prod > MAX ? (uint64_t)MAX : (uint64_t)prod;
+            PBT_CHECK(r.add_sat == ws, "[x64asm, gcc, literal operands] aws_add_u%d_saturating(%" PRIu64 ", %" PRIu64 ") = %" PRIu64 ", expected %" PRIu64,
+                      width, r.a, r.b, r.add_sat, ws);
+            PBT_CHECK(r.mul_sat == wp, "[x64asm, gcc, literal operands] aws_mul_u%d_saturating(%" PRIu64 ", %" PRIu64 ") = %" PRIu64 ", expected %" PRIu64,
+                      width, r.a, r.b, r.mul_sat, wp);
+            PBT_CHECK((r.add_rc == AWS_OP_SUCCESS) == (sum <= MAX), "[x64asm, gcc, literal operands] aws_add_u%d_checked(%" PRIu64 ", %" PRIu64 ") rc %d",
+                      width, r.a, r.b, r.add_rc);
+            PBT_CHECK((r.mul_rc == AWS_OP_SUCCESS) == (prod <= MAX), "[x64asm, gcc, literal operands] aws_mul_u%d_checked(%" PRIu64 ", %" PRIu64 ") rc %d",
+                      width, r.a, r.b, r.mul_rc);
+            if (sum <= MAX)
+                PBT_CHECK(r.add_val == (uint64_t)sum, "[x64asm, gcc, literal operands] aws_add_u%d_checked(%" PRIu64 ", %" PRIu64 ") stored %" PRIu64,
+                          width, r.a, r.b, r.add_val);
+            if (prod <= MAX)
+                PBT_CHECK(r.mul_val == (uint64_t)prod, "[x64asm, gcc, literal operands] aws_mul_u%d_checked(%" PRIu64 ", %" PRIu64 ") stored %" PRIu64,
+                          width, r.a, r.b, r.mul_val);
+        }
+    }
+}
+
 static void run(const Case &c, Ctx &ctx) {
     Tally t;
     const auto &b64 = B64();
@@ -757,6 +795,7 @@ static void run(const Case &c, Ctx &ctx) {
 
     // 1. deterministic part: the boundary cross product (one row in both orders, or all of it)
     if (full) {
+        check_constant_operand_tables();
         for (uint64_t a : b64)
             for (uint64_t b : b64) check_pair64(a, b, t);
         for (uint64_t a : b32)
